@@ -7,6 +7,7 @@ CONSTANTS
   BUGGY_F16 = FALSE
   BUGGY_F18 = FALSE
   BUGGY_F20 = TRUE
+  BUGGY_F21 = FALSE
   BUGGY_F19 = FALSE
   KeySet <- K7x
   BuildKeys <- B7x
